@@ -9,6 +9,7 @@ import pipeline
 import sr
 
 ASSUME = [
+    "some host names are handed over as bytes (as twisted.web does), punycode labels included: the request carries exactly those bytes",
     "selections none_ok / badver_ok / m1_ok: after a refusal (or a wrong version) two more bytes arrive that look like a selection of "
     "'no authentication': the server's selection stands, no request is sent",
     "some CONNECT vectors are made while another connection to a different port of the same host, or a look-up of that host, is "
@@ -98,6 +99,11 @@ def vectors(tier, seed):
     sels = ["split", "m2", "m2split", "none", "badver", "m1", "split", "sync", "sync", "coalesced", "coalesced", "none_ok", "badver_ok", "m1_ok"]
     vs = [v + (("ok",) if i % 4 else (sels[(i // 4) % len(sels)],)) for i, v in enumerate(vs)]
     vs += tlsvs
+    # host names handed over as bytes (as twisted.web's URI.host is), punycode labels included
+    for h in (b"example.com", b"xn--bcher-kva.example", b"www.xn--80ak6aa92e.com", b"XN--BCHER-KVA.example", b"a.b.example.org."):
+        for p in (80, 443):
+            vs.append(("CONNECT", "host", h, p, "ok", False))
+            vs.append(("CONNECT", "host", h, p, "split", True))
     # overlapping use of one host: while our request waits for the proxy's method selection, a connection to another port
     # of the same host - or a look-up of it - is started
     for h, k in (("www.example.org", "host"), ("198.51.100.20", "v4"), ("2001:db8::7", "v6"), ("onion.example.com", "host")):
@@ -166,7 +172,7 @@ def run(pid, tier, seed):
 def replay(pid, path):
     p = json.load(open(path))
     v = p["vector"]
-    rec = sr.vector(v["req"], v["kind"], v["host"], v["port"], v.get("sel", "ok"), v.get("tls", False), v.get("beside", ""))
+    rec = sr.vector(v["req"], v["kind"], v["host"].encode("latin-1") if v.get("hostbytes") else v["host"], v["port"], v.get("sel", "ok"), v.get("tls", False), v.get("beside", ""))
     t = dict(rec, steps=[1])
     t.pop("host")
     res, r = tlc.validate_traces("SocksReqTrace", "SocksReqTrace.cfg", [t])
